@@ -173,11 +173,19 @@ func (c *Cache) Watch(
 		// Create/Get Informer
 		informer, _, err := c.informerMap.Get(ctx, gvk, uns)
 		if err != nil {
+			// Forget the reference again, so a retry starts the informer
+			// instead of assuming it is already running.
+			delete(c.informerReferences, gvk)
 			return fmt.Errorf("getting informer from InformerMap: %w", err)
 		}
 
 		// ensure to add all event handlers to the new informer
 		if err := c.cacheSource.handleNewInformer(informer); err != nil {
+			// Don't keep an informer around that is missing event handlers.
+			delete(c.informerReferences, gvk)
+			if delErr := c.informerMap.Delete(ctx, gvk); delErr != nil {
+				log.Error(delErr, "releasing informer after failed EventHandler registration", "gvk", gvk.String())
+			}
 			return fmt.Errorf("registering EventHandlers for %v: %w", gvk, err)
 		}
 	}
